@@ -34,8 +34,8 @@ DEFAULT = {"label": "plain", "value": "frac", "standard_error": "nan", "minimum"
            "vary": "True", "non_negative": "False", "expression": "none"}
 
 LABELS_ALL = ["plain", "nested", "numlike", "numeric", "kwbool", "kwna"]
-VALUES_ALL = ["zero", "one", "int", "frac", "frac17", "huge", "neghuge", "tiny", "negtiny"]
-STDERR_ALL = ["nan", "short", "frac17"]
+VALUES_ALL = ["zero", "one", "int", "frac", "frac17", "huge", "neghuge", "tiny", "negtiny", "inf", "neginf"]
+STDERR_ALL = ["nan", "short", "frac17", "inf"]
 
 INVARIANTS = ["TypeOK", "RoundTrip", "OrderPreserved", "ExprNotVaried"]
 PROPERTIES = ["Idempotent"]
@@ -91,8 +91,10 @@ VALUE_POOL = {
     "neghuge": [-1e308, -1.5e300, -1.7976931348623157e308, -8.5e307],
     "tiny": [5e-324, 1e-300, 2.5e-310, 3e-320],
     "negtiny": [-5e-324, -1e-300, -2.5e-310, -3e-320],
+    "inf": [float("inf")],           # an infinite value or standard error is a float like any other (only infinite BOUNDS are written as empty cells)
+    "neginf": [float("-inf")],
 }
-STDERR_POOL = {"nan": [float("nan")], "short": [0.5, 0.01, 2.5e-3, 12.0], "frac17": FRAC17}
+STDERR_POOL = {"nan": [float("nan")], "short": [0.5, 0.01, 2.5e-3, 12.0], "frac17": FRAC17, "inf": [float("inf")]}
 MIN_POOL = [0, 0.0, -1.5, -1000.0, 0.001, -1e308]     # the first one is an int on purpose (DESIGN §7 harness lesson)
 MAX_POOL = [10, 1.0, 1e6, 1000.5, 1e308]
 EXPR_FORMS = ["${x}", "2 * ${x}", "${x} + 1", "${x} / 3", "2.5", "2"]      # the last two: constant expressions that look like numbers (they are text all the same)
@@ -820,7 +822,7 @@ def run(tier: str, replay=None) -> int:
     procs = max(1, min(12, (os.cpu_count() or 2) - 2))
 
     if tier == "quick":
-        consts = (LABELS_ALL, ["zero", "one", "frac", "frac17", "huge", "negtiny"], STDERR_ALL, TABLE_FORMATS, 3, 2, 2)
+        consts = (LABELS_ALL, ["zero", "one", "frac", "frac17", "huge", "negtiny", "neginf"], STDERR_ALL, TABLE_FORMATS, 3, 2, 2)
         fs_consts = (["list", "dict1", "dict2"], ["bare", "v", "lv", "vl"], ["float", "sci"], ["none", "vary_false", "vary_true", "expr"],
                      ["none", "vary_false", "nonneg"], 2)
         sheet_sample = 260
